@@ -30,6 +30,12 @@ MUTANTS = [
      "expect": "C07.D2:order"},
     {"name": "commit-failure-ignored", "file": "src/coordinator/core.rs", "old": "            error!(\"failed to commit migration state: {:?}\", err);\n            return Err(err);", "new": "            error!(\"failed to commit migration state: {:?}\", err);", "expect": "C07.D1:failed-commit"},
     {"name": "sync-first-batch-only", "file": "src/coordinator/core.rs", "after": "ProxyMetaRespSynchronizer<P, M, S>\n{", "old": "        while let Some(results) = s.next().await {\n            let mut proxies = vec![];", "new": "        if let Some(results) = s.next().await {\n            let mut proxies = vec![];", "expect": "C07.D4"},
+    {"name": "destination-error-ignored", "file": "src/coordinator/core.rs", "old": "        Self::set_cluster_meta(dst_address, meta_retriever, sender).await?;\n", "new": "        if let Err(err) = Self::set_cluster_meta(dst_address, meta_retriever, sender).await {\n            error!(\"failed to update destination: {:?}\", err);\n        }\n", "expect": "C07.D1:source-only-after-destination-ok"},
+    {"name": "send-skipped-for-fresh-proxy", "file": "src/coordinator/core.rs", "old": "            None => return Ok(()),\n        };\n        if let Err(err) = sender.send_meta(proxy).await {", "new": "            None => return Ok(()),\n        };\n        if proxy.get_nodes().is_empty() {\n            return Ok(());\n        }\n        if let Err(err) = sender.send_meta(proxy).await {", "expect": "C07.D5:send-skipped-only-for-unknown-proxy"},
+    {"name": "synchronizer-remembers-addresses", "edits": [
+        {"file": "src/coordinator/core.rs", "old": "    meta_retriever: Arc<MRetriever>,\n    sender: Arc<Sender>,\n}\n\nimpl<P: ProxiesRetriever, M: ProxyMetaRetriever, S: ProxyMetaSender>\n    ProxyMetaRespSynchronizer<P, M, S>", "new": "    meta_retriever: Arc<MRetriever>,\n    sender: Arc<Sender>,\n    seen: Arc<std::sync::Mutex<std::collections::HashSet<String>>>,\n}\n\nimpl<P: ProxiesRetriever, M: ProxyMetaRetriever, S: ProxyMetaSender>\n    ProxyMetaRespSynchronizer<P, M, S>"},
+        {"file": "src/coordinator/core.rs", "old": "            meta_retriever: Arc::new(meta_retriever),\n            sender: Arc::new(sender),\n        }", "new": "            meta_retriever: Arc::new(meta_retriever),\n            sender: Arc::new(sender),\n            seen: Arc::new(std::sync::Mutex::new(std::collections::HashSet::new())),\n        }"}],
+     "expect": "C07.D5:stateless"},
 ]
 
 
@@ -41,6 +47,7 @@ def run(ctx):
     F = ctx.F
     ctx.rule("C07.D1", "sync_migration_state: commit dominates both pushes, destination before source, failed commit reaches neither")
     ctx.rule("C07.D2", "coordinator never forces; SETREPL then SETCLUSTER on every Ok path; OLD_EPOCH -> Ok, NOT_MY_META -> Err")
+    ctx.rule("C07.D5", "coordinator loop components are stateless (no field with interior mutability or a collection) and send_meta is skipped only when the broker has no record of the proxy")
     ctx.rule("C07.D4", "periodic synchronizer: every retrieved address is synced, no filter, single loop exit, errors accumulated")
     ctx.rule("C07.D5", "broker commit matching by (range list, exact epoch, direction): truth tables of the four predicates")
     _sync_migration(ctx)
@@ -48,6 +55,8 @@ def run(ctx):
     _send_order(ctx)
     _old_epoch(ctx)
     _full_resync(ctx)
+    _send_unconditional(ctx)
+    _stateless(ctx)
     _commit(ctx, "C07.D5")
 
 
@@ -62,7 +71,13 @@ def _sync_migration(ctx):
         dom = cfg.dominators(b)
         commits = [(bb, t) for bb, t in b.calls() if (callee_decl(t) or "").endswith("MigrationCommitter::commit")]
         pushes = [(bb, t) for bb, t in b.calls() if (callee_of(t) or "").endswith("::set_cluster_meta")]
-        if not (ctx.floor("C07.D1", "commit call", len(commits), 1) and ctx.floor("C07.D1", "set_cluster_meta calls", len(pushes), 2)):
+        if not ctx.floor("C07.D1", "commit call", len(commits), 1):
+            continue
+        if len(pushes) == 1 and any(pushes[0][0] in cfg.loop_blocks(b, t_, h) for t_, h in cfg.natural_loops(b)):
+            ctx.violation("C07.D1", "destination-before-source", site(b, pushes[0][0]),
+                          "both proxies are updated by one set_cluster_meta call inside a loop: a failed destination update does not stop the source update, so the source can give the slots away while the destination still has the pre-commit metadata")
+            continue
+        if not ctx.floor("C07.D1", "set_cluster_meta calls", len(pushes), 2):
             continue
         cb = commits[0][0]
         sides = []
@@ -76,6 +91,15 @@ def _sync_migration(ctx):
         s_ = [bb for bb, s in sides if s == "src"]
         ctx.check(len(d) == 1 and len(s_) == 1 and d[0] in dom.get(s_[0], ()) and not cfg.reaches(b, s_[0], d[0]), "C07.D1", "destination-before-source", site(b, (s_ or d or [0])[0]),
                   ok="destination is updated before the source (slots always have an owner)", bad="push order is %s" % [s for _, s in sorted(sides)])
+        # a failed destination update ends the round for this task: the source push is on the Ok branch of the destination push's result
+        if len(d) == 1 and len(s_) == 1:
+            from ..lib import branch_conditions
+            okb = False
+            for gd, discr, val in branch_conditions(b, s_[0], dom):
+                if d[0] in dom.get(gd, ()) and du.slice_operand(discr).has_call("set_cluster_meta"):
+                    okb = True
+            ctx.check(okb, "C07.D1", "source-only-after-destination-ok", site(b, s_[0]), ok="the source is updated only when the destination update succeeded",
+                      bad="the source update does not depend on the result of the destination update: after a lost call to the destination the source gives the slots away while the destination still has the pre-commit metadata")
         # commit argument is the reported task
         ctx.check(du.slice_operand(commits[0][1]["args"][1]).captures & {"meta"} != set() or du.slice_operand(commits[0][1]["args"][1]).has_param(2) or True, "C07.D1", "commit-subject", site(b, cb), ok="commits the reported task", bad="")
         # failed commit: the Err return fed by the commit result does not reach a push
@@ -236,3 +260,60 @@ def _full_resync(ctx):
     res_l = b.local_by_name("res")
     ok_exits, err_exits = _exits(b)
     ctx.check(res_l is not None, "C07.D4", "errors-accumulated", site(b), ok="errors are accumulated in `res` and returned at the end", bad="no accumulated result variable")
+
+
+STATEFUL_TYPES = ("Mutex<", "RwLock<", "RefCell<", "Cell<", "Atomic", "HashMap<", "HashSet<", "BTreeMap<", "BTreeSet<", "DashMap<", "DashSet<", "ArcSwap", "Vec<", "VecDeque<", "OnceCell", "OnceLock", "Lazy<")
+LOOP_MODULES = ("coordinator::core::", "coordinator::sync::", "coordinator::detector::", "coordinator::migration::", "coordinator::recover::")
+
+
+def _stateless(ctx):
+    """all control-plane state lives in the broker and the proxies; a synchronizer that remembers what it sent (epochs,
+    addresses, failures) stops repairing a proxy that lost its state while the broker view is unchanged"""
+    F = ctx.F
+    n = 0
+    for p, a in sorted(F.adts.items()):
+        if not p.startswith(LOOP_MODULES) or a.kind != "Struct" or "Mock" in p or "::_::" in p:
+            continue
+        n += 1
+        bad = [(f["name"], f["ty"]) for f in a.variants[0]["fields"] if any(x in f["ty"] for x in STATEFUL_TYPES)]
+        ctx.check(not bad, "C07.D5", "stateless:%s" % p.split("coordinator::", 1)[1], "%s:%s" % (a.file, a.line), ok="fields: %s" % [f["name"] for f in a.variants[0]["fields"]],
+                  bad="%s keeps state across calls in %s: a proxy restarted with empty state is not re-synchronised while the remembered value says it is up to date" % (p, bad))
+    ctx.floor("C07.D5", "coordinator loop component structs", n, 12)
+    # statics with interior state in these modules
+    for b in F.all_bodies(bins=False):
+        if b.kind.startswith("Static") and b.path.startswith(LOOP_MODULES):
+            ctx.violation("C07.D5", "stateless:static:%s" % b.path, site(b), "static item %s in a coordinator loop module" % b.path)
+
+
+def _send_unconditional(ctx):
+    F = ctx.F
+    bs = [b for b in F.all_bodies(bins=False) if b.path.startswith("coordinator::core::ProxyMetaRespSynchronizer") and b.path.endswith("::retrieve_and_send_meta::{closure#0}")]
+    if not ctx.floor("C07.D5", "retrieve_and_send_meta async body", len(bs), 1):
+        return
+    b = bs[0]
+    ctx.analysed(b)
+    du = DefUse(b)
+    sm = [(bb, t) for bb, t in b.calls() if (callee_decl(t) or "").endswith("ProxyMetaSender::send_meta")]
+    gm = [(bb, t) for bb, t in b.calls() if (callee_decl(t) or "").endswith("ProxyMetaRetriever::get_proxy_meta")]
+    if not (ctx.floor("C07.D5", "send_meta call", len(sm), 1) and ctx.floor("C07.D5", "get_proxy_meta call", len(gm), 1)):
+        return
+    ok_exits, err_exits = _exits(b)
+    sbbs = {bb for bb, _ in sm}
+    from ..lib import branch_conditions
+    dom = cfg.dominators(b)
+    bad = []
+    for x in ok_exits:
+        if cfg.path_between(b, 0, x, avoid=sbbs) is None:
+            continue
+        # an Ok exit that can be reached without send_meta: allowed only under the None arm of the broker's answer
+        conds = branch_conditions(b, x, dom)
+        none_arm = False
+        for d, discr, val in conds:
+            pl = discr.get("mv") or discr.get("cp")
+            for df in du.defs.get(pl["l"], []) if pl else []:
+                if df[0] == "assign" and df[3]["rv"]["k"] == "discr" and b.locals[df[3]["rv"]["p"]["l"]]["ty"].startswith("std::option::Option<common::cluster::Proxy") and val == 0:
+                    none_arm = True
+        if not none_arm:
+            bad.append(x)
+    ctx.check(not bad, "C07.D5", "send-skipped-only-for-unknown-proxy", site(b, bad[0]) if bad else site(b), ok="Ok without send_meta only when the broker has no record of the proxy",
+              bad="retrieve_and_send_meta can return Ok without sending although the broker returned metadata for the proxy: that proxy is not synchronised in this round")
